@@ -210,26 +210,26 @@ type bscPacket struct {
 }
 
 type bscWorld struct {
-	rec      *kernel.Rec
-	cfg      map[string]int64
-	now      time.Time
-	host     *node.Chain
-	gov      *node.Account
-	relayer  *node.Account
-	r        *rand.Rand
-	name     string
-	keys     map[common.Address]*ecdsa.PrivateKey
-	pool     []common.Address
-	m        *parlia
-	nextList []common.Address // what the next epoch header will announce
-	state    *evmState
-	snaps    map[uint64]*evmSnapshot
-	contract common.Address
-	other    common.Address
-	packets  []*bscPacket
-	pending  []*bscTx
-	tp       uint64
-	crashNext int
+	rec          *kernel.Rec
+	cfg          map[string]int64
+	now          time.Time
+	host         *node.Chain
+	gov          *node.Account
+	relayer      *node.Account
+	r            *rand.Rand
+	name         string
+	keys         map[common.Address]*ecdsa.PrivateKey
+	pool         []common.Address
+	m            *parlia
+	nextList     []common.Address // what the next epoch header will announce
+	state        *evmState
+	snaps        map[uint64]*evmSnapshot
+	contract     common.Address
+	other        common.Address
+	packets      []*bscPacket
+	pending      []*bscTx
+	tp           uint64
+	crashNext    int
 	pendingSnaps []pendSnap
 	// stub history (lifecycle world): every header the stub chain produced, with the model right after it
 	hist    []bscHist
@@ -265,11 +265,12 @@ var bscMutations = []string{"none", "none", "none", "none", "non_member", "recen
 
 func (BSCScenario) Generate(rng *rand.Rand, focus, tier string) kernel.Plan {
 	cfg := map[string]int64{
-		"keyseed": rng.Int63(),
-		"vals":    1 + rng.Int63n(9),
-		"epoch":   []int64{3, 5, 8, 20, 200}[rng.Intn(5)],
-		"start":   rng.Int63n(4), // start epoch index (0 = height 0)
-		"tp_min":  []int64{10, 600, 20160}[rng.Intn(3)],
+		"keyseed":     rng.Int63(),
+		"special_seq": kernel.B2I(focus == "C19" || kernel.Chance(rng, 0.3)),
+		"vals":        1 + rng.Int63n(9),
+		"epoch":       []int64{3, 5, 8, 20, 200}[rng.Intn(5)],
+		"start":       rng.Int63n(4), // start epoch index (0 = height 0)
+		"tp_min":      []int64{10, 600, 20160}[rng.Intn(3)],
 	}
 	if kernel.Chance(rng, 0.15) {
 		cfg["vals"] = 21
@@ -695,7 +696,8 @@ func eligibleOf(p *parlia, number uint64) []common.Address {
 func (w *bscWorld) opWrite(op kernel.Op) {
 	r := rand.New(rand.NewSource(op.Arg(1)))
 	for i := int64(0); i < op.Arg(0); i++ {
-		seq := uint64(len(w.packets) + 1)
+		seq := stubSeq(len(w.packets), w.cfg["special_seq"], r.Int63n(1<<20))
+		checkPacketPaths(w.rec, w.name, "host", seq)
 		pkt := packettypes.Packet{SrcChain: w.name, DstChain: "host", Sequence: seq, Sender: "0xabc", TransferData: []byte{}, CallData: []byte{byte(r.Intn(255)), 1},
 			CallbackAddress: "", FeeOption: 0}
 		bz, err := pkt.ABIPack()
@@ -885,6 +887,7 @@ func (w *bscWorld) afterRecv(tx *bscTx, ok bool, log string, pre, post map[strin
 			w.rec.Violate("C01", "double_accept", "bsc", "packet %d accepted twice", tx.pkt.seq)
 		}
 		tx.pkt.recvOK = true
+		packetReadback(w.rec, w.host, w.name, tx.pkt.seq)
 		if !want {
 			key := "proof"
 			if !heightOK {
